@@ -386,8 +386,10 @@ class Parser:
         except RecursionError:
             # every nesting level of the input costs a few dozen frames of this recursive-descent parser: an input nested
             # deeper than the interpreter's recursion limit allows is refused like any other input that cannot be parsed
-            tok = self._tokenizer.diagnose()
-            raise self._build_syntax_error("too many nested constructs (recursion limit reached)", tok.start, tok.end) from None
+            # (the furthest token already read: the token generator may have died of the same error)
+            tokens = self._tokenizer._tokens
+            start, end = (tokens[-1].start, tokens[-1].end) if tokens else ((1, 0), (1, 1))
+            raise self._build_syntax_error("too many nested constructs (recursion limit reached)", start, end) from None
 
     def _parse(self, rule: str, call_invalid_rules: bool = False) -> ast.AST | Any | None:
         self.call_invalid_rules = call_invalid_rules
@@ -442,7 +444,9 @@ class Parser:
     def _normalize_identifiers(self, tree: ast.AST) -> None:
         """Identifiers are compared in NFKC normal form (PEP 3131); CPython stores them that way in the tree."""
         for node in ast.walk(tree):
-            for field in self._IDENTIFIER_FIELDS.intersection(node._fields):
+            for field in node._fields:  # (in source order: the first offending name is the one reported)
+                if field not in self._IDENTIFIER_FIELDS:
+                    continue
                 value = getattr(node, field)
                 for name in value if isinstance(value, list) else [value]:
                     if isinstance(name, str) and not name.isascii():
